@@ -153,7 +153,7 @@ theorem fqInv_reach {P : Prog} {c0 c : Cfg} (h0 : Started c0) (hr : Reach P c0 c
 
 theorem coreN_fq_persist {P : Prog} {b c' : Cfg} {ins : Instr} (h : CoreN P b ins c') (hins : isApprun ins = false)
     (hf : b.L.forceQuit = true) : c'.L.forceQuit = true := by
-  cases h <;> simp_all [push, Cfg.trace, enqueue_eq, emit_eq, excEnq, isApprun]
+  cases h <;> simp_all [push, Cfg.trace, emit_eq, excEnq, isApprun]
 
 /-- after the start force-quit is never reset -/
 theorem fq_persist_trans {P : Prog} {c c' : Cfg} (hA : AfterStart c) (hf : c.L.forceQuit = true) (ht : Trans P c c') :
@@ -441,23 +441,23 @@ theorem live_reach {P : Prog} {c0 c : Cfg} (h : Live P c0 c) : Reach P c0 c := b
   | step _ hs ih => exact .step ih hs
   | deliver _ hd ih => exact .deliver ih hd
 
-/-- the outermost `_mainloop` activation has left its loop — with the loop flag down, for which a reason is in the history -/
-def LeftLoop (tr : List Tr) : Prop := Tr.loopReturn 0 ∈ tr ∧ StopReason tr
+/-- the outermost `_mainloop` activation has left its loop, and `R` held of the history when it did -/
+def LeftLoop (R : List Tr → Prop) (tr : List Tr) : Prop := Tr.loopReturn 0 ∈ tr ∧ R tr
 
-theorem LeftLoop.grow {tr new : List Tr} (h : LeftLoop tr) : LeftLoop (new ++ tr) :=
-  ⟨List.mem_append_right _ h.1, h.2.grow⟩
+/-- how a live run gets to the bottom of `run()`; `R` is what is known of the history when the outermost loop test finds
+the flag down -/
+structure LiveInv (R : List Tr → Prop) (c0 c : Cfg) : Prop where
+  left : c.code = [.restoreRun, .catchExit, .quitCb] ∨ c.code = [.catchExit, .quitCb] → LeftLoop R c.tr
+  quit : c.code = [.quitCb] → Tr.exit ∈ c.tr ∨ LeftLoop R c.tr
+  done : c.code = [] → (Tr.exit ∈ c.tr ∨ LeftLoop R c.tr) ∧ ∀ d, c0.L.quitCb = some d → Ev.quitcb d ∈ c.log
 
-/-- how a live run gets to the bottom of `run()` -/
-structure LiveInv (c0 c : Cfg) : Prop where
-  left : c.code = [.restoreRun, .catchExit, .quitCb] ∨ c.code = [.catchExit, .quitCb] → LeftLoop c.tr
-  quit : c.code = [.quitCb] → Tr.exit ∈ c.tr ∨ LeftLoop c.tr
-  done : c.code = [] → (Tr.exit ∈ c.tr ∨ LeftLoop c.tr) ∧ ∀ d, c0.L.quitCb = some d → Ev.quitcb d ∈ c.log
-
-theorem liveInv_trans {P : Prog} {c0 c c' : Cfg} (hq : c.L.quitCb = c0.L.quitCb) (hR : RunLoopInv c) (hI : LiveInv c0 c)
-    (hS : ShapeStep P c c') (ht : Trans P c c') (hlive : ∀ o, step P c ≠ .error (o, c')) : LiveInv c0 c' := by
+theorem liveInv_trans {R : List Tr → Prop} (hRg : ∀ tr new, R tr → R (new ++ tr)) {P : Prog} {c0 c c' : Cfg}
+    (hq : c.L.quitCb = c0.L.quitCb)
+    (hoff : c.code = [.mainCheck 0, .catchExit, .quitCb] → c.L.runLoop = false → R c.tr) (hI : LiveInv R c0 c)
+    (hS : ShapeStep P c c') (ht : Trans P c c') (hlive : ∀ o, step P c ≠ .error (o, c')) : LiveInv R c0 c' := by
   obtain ⟨new, hnew, -⟩ := trans_origin ht
   obtain ⟨newl, hnewl, -⟩ := trans_logOrigin ht
-  have gl : LeftLoop c.tr → LeftLoop c'.tr := fun h => hnew ▸ h.grow
+  have gl : LeftLoop R c.tr → LeftLoop R c'.tr := fun h => hnew ▸ ⟨List.mem_append_right _ h.1, hRg _ _ h.2⟩
   have ge : Tr.exit ∈ c.tr → Tr.exit ∈ c'.tr := fun h => hnew ▸ List.mem_append_right _ h
   cases hS
   case body B B' T hT hc hB hne hcode hB' hx =>
@@ -487,7 +487,7 @@ theorem liveInv_trans {P : Prog} {c0 c c' : Cfg} (hq : c.L.quitCb = c0.L.quitCb)
     · cases h
   case loopOff hc hr hcode htr =>
     refine ⟨fun _ => ?_, ?_, ?_⟩
-    · rw [htr]; exact ⟨by simp, (hR hr).cons⟩
+    · rw [htr]; exact ⟨by simp, hRg _ [_] (hoff hc hr)⟩
     all_goals (intro h; rw [hcode] at h; cases h)
   case restored hc hcode htr =>
     refine ⟨fun _ => gl (hI.left (.inl hc)), ?_, ?_⟩ <;> intro h <;> rw [hcode] at h <;> cases h
@@ -510,7 +510,9 @@ theorem liveInv_trans {P : Prog} {c0 c c' : Cfg} (hq : c.L.quitCb = c0.L.quitCb)
     obtain ⟨o, hs⟩ := hs
     exact absurd hs (hlive o)
 
-theorem liveInv_live {P : Prog} {c0 c : Cfg} (h0 : Started c0) (h : Live P c0 c) : LiveInv c0 c := by
+theorem liveInv_live {R : List Tr → Prop} (hRg : ∀ tr new, R tr → R (new ++ tr)) {P : Prog} {c0 c : Cfg} (h0 : Started c0)
+    (hoff : ∀ c, Reach P c0 c → c.code = [.mainCheck 0, .catchExit, .quitCb] → c.L.runLoop = false → R c.tr)
+    (h : Live P c0 c) : LiveInv R c0 c := by
   induction h with
   | init =>
     obtain ⟨i, hh, q, s, rfl⟩ := h0
@@ -520,17 +522,15 @@ theorem liveInv_live {P : Prog} {c0 c : Cfg} (h0 : Started c0) (h : Live P c0 c)
     · simp [initCfg] at h
   | step hl hs ih =>
     have hr := live_reach hl
-    exact liveInv_trans (quitInv_reach h0 hr).2 (runLoopInv_reach h0 hr) ih (shapeStep_reach h0 hr (.step hs)) (.step hs)
+    exact liveInv_trans hRg (quitInv_reach h0 hr).2 (hoff _ hr) ih (shapeStep_reach h0 hr (.step hs)) (.step hs)
       (fun o he => by rw [hs] at he; cases he)
   | @deliver c c' hl hd ih =>
-    have hr := live_reach hl
-    have hS := shapeStep_reach h0 hr (Trans.deliver (P := P) hd)
-    -- a delivery changes neither the code nor anything the invariant mentions except by growing the histories
     obtain ⟨r, rs, hrr, rfl⟩ := deliver_eq hd
-    refine ⟨fun h => (ih.left h).grow (new := [_]), fun h => (ih.quit h).imp (List.mem_cons_of_mem _) (fun g => g.grow (new := [_])), fun h => ?_⟩
+    have g : LeftLoop R c.tr → LeftLoop R (enqT c.L (lineSig c r) :: c.tr) :=
+      fun h => ⟨List.mem_cons_of_mem _ h.1, hRg _ [_] h.2⟩
+    refine ⟨fun h => g (ih.left h), fun h => (ih.quit h).imp (List.mem_cons_of_mem _) g, fun h => ?_⟩
     obtain ⟨h1, h2⟩ := ih.done h
-    exact ⟨h1.imp (List.mem_cons_of_mem _) (fun g => g.grow (new := [_])), fun d hd => List.mem_cons_of_mem _ (h2 d hd)⟩
-
+    exact ⟨h1.imp (List.mem_cons_of_mem _) g, fun d hd => List.mem_cons_of_mem _ (h2 d hd)⟩
 
 /-! ### single steps -/
 
